@@ -644,6 +644,11 @@ func callSSA(i *interpreter, caller *frame, callpos token.Pos, fn *ssa.Function,
 		}
 	}
 
+	return runSSA(fr, fn, args, env)
+}
+
+// runSSA interprets the body of fn in the prepared frame.
+func runSSA(fr *frame, fn *ssa.Function, args []value, env []value) value {
 	// generic function body?
 	if fn.TypeParams().Len() > 0 && len(fn.TypeArgs()) == 0 {
 		panic("interp requires ssa.BuilderMode to include InstantiateGenerics to execute generics")
